@@ -33,10 +33,22 @@ fn run_case(case: &Value) -> Vec<Value> {
         .as_array()
         .map(|a| {
             a.iter()
+                .filter(|s| !s["during"].as_bool().unwrap_or(false))
                 .map(|s| {
                     (s["after"].as_u64().unwrap_or(0) as usize, s["delay"].as_u64().unwrap_or(1), s["sig"].as_str().unwrap_or("term").to_string(),
                      s["same_poll"].as_bool().unwrap_or(false))
                 })
+                .collect()
+        })
+        .unwrap_or_default();
+    // "during": the signal is raised while a run is in progress, `delay` seconds after the start of the run that
+    // follows `after` finished ones
+    let mut during: Vec<(usize, u64, String)> = case["signals"]
+        .as_array()
+        .map(|a| {
+            a.iter()
+                .filter(|s| s["during"].as_bool().unwrap_or(false))
+                .map(|s| (s["after"].as_u64().unwrap_or(0) as usize, s["delay"].as_u64().unwrap_or(1), s["sig"].as_str().unwrap_or("term").to_string()))
                 .collect()
         })
         .unwrap_or_default();
@@ -57,6 +69,7 @@ fn run_case(case: &Value) -> Vec<Value> {
         let mut finished = 0usize;   // jobs finished
         let mut running = false;
         let mut last_finish = 0u64;
+        let mut last_start = 0u64;
         let mut pending: Vec<(usize, u64, String, bool)> = signals;
         let mut log: Vec<Event> = Vec::new();
         let mut sec = 0u64;
@@ -68,7 +81,8 @@ fn run_case(case: &Value) -> Vec<Value> {
                 match log[seen] {
                     Event::Started(t) => {
                         running = true;
-                        out.push(json!({"ev": "start", "t": t.duration_since(start).as_secs(), "n": finished + 1}));
+                        last_start = t.duration_since(start).as_secs();
+                        out.push(json!({"ev": "start", "t": last_start, "n": finished + 1}));
                     }
                     Event::Finished(t, ok) => {
                         running = false;
@@ -82,7 +96,26 @@ fn run_case(case: &Value) -> Vec<Value> {
             if handle.is_finished() {
                 break;
             }
-            // due signals (only while the loop is waiting)
+            // signals due while a run is in progress
+            if running {
+                let mut k = 0;
+                while k < during.len() {
+                    if during[k].0 == finished && sec == last_start + during[k].1 {
+                        let (_, _, name) = during.remove(k);
+                        out.push(json!({"ev": "signal", "t": sec, "sig": name, "during": true}));
+                        unsafe {
+                            libc::raise(sig(&name));
+                        }
+                        settle(400).await;
+                        continue;
+                    }
+                    k += 1;
+                }
+                if handle.is_finished() {
+                    continue;
+                }
+            }
+            // due signals while the loop is waiting
             if !running {
                 let now = sec;
                 let mut k = 0;
@@ -112,7 +145,7 @@ fn run_case(case: &Value) -> Vec<Value> {
                     continue;
                 }
             }
-            if sec >= horizon || (finished >= njobs + 2 && pending.is_empty()) {
+            if sec >= horizon || (finished >= njobs + 2 && pending.is_empty() && during.is_empty()) {
                 break;
             }
             time::advance(Duration::from_secs(1)).await;
